@@ -557,6 +557,48 @@ func ruleLexProgress(p *Program, r *Reporter) {
 					}
 				}
 			}
+			// … or an inner loop that advances, sits on every cycle, and goes
+			// round at least once because the outer condition pins the current
+			// character to one its own condition accepts (`for ch == '/' && … {
+			// for ch != '\n' … { advance } }`: the helpers written out in place)
+			if !onEvery {
+				if iff, ok := terminator(h).(*ssa.If); ok && inLoop[h.Succs[0]] {
+					if bo, ok := iff.Cond.(*ssa.BinOp); ok && bo.Op == token.EQL {
+						var kv ssa.Value
+						if ld, ok := bo.X.(*ssa.UnOp); ok && ld.Op == token.MUL && fieldKey(ld.X) == "lexer.Lexer.ch" {
+							kv = bo.Y
+						} else if ld, ok := bo.Y.(*ssa.UnOp); ok && ld.Op == token.MUL && fieldKey(ld.X) == "lexer.Lexer.ch" {
+							kv = bo.X
+						}
+						for kv != nil {
+							if cv, ok := kv.(*ssa.Convert); ok {
+								kv = cv.X
+								continue
+							}
+							break
+						}
+						if k, ok := kv.(*ssa.Const); ok && k.Value != nil && k.Value.Kind() == constant.Int {
+							if c, exact := constant.Int64Val(k.Value); exact {
+								for _, lp := range charLoops(p, adv) {
+									if lp.fn != fn || lp.h == h || !inLoop[lp.h] {
+										continue
+									}
+									all := true
+									for _, bk := range backs {
+										if !(lp.h == bk || lp.h.Dominates(bk)) {
+											all = false
+										}
+									}
+									// nothing advances between the outer test and the inner loop
+									if v, known := lp.skips(rune(c)); all && known && v && noAdvanceBetween(h, lp.h, inLoop, advancing) {
+										onEvery = true
+									}
+								}
+							}
+						}
+					}
+				}
+			}
 			// (2) an exit taken at the sentinel
 			exitsAtEnd := false
 			for b := range inLoop {
@@ -956,4 +998,33 @@ func ruleEscapes(p *Program, r *Reporter) {
 		_ = identity
 		r.Fail(key, p.Pos(pos[k]), fmt.Sprintf("\\%c is turned into %q, but every escaped character other than n, r and t denotes itself", k, v))
 	}
+}
+
+// noAdvanceBetween: on the way from the test in h to the loop headed by to
+// (inside the outer loop) no advancing call is made — the character the
+// outer test saw is the character the inner loop starts with.
+func noAdvanceBetween(h, to *ssa.BasicBlock, inLoop map[*ssa.BasicBlock]bool, advancing map[*ssa.Function]bool) bool {
+	seen := map[*ssa.BasicBlock]bool{}
+	ok := true
+	var walk func(b *ssa.BasicBlock)
+	walk = func(b *ssa.BasicBlock) {
+		if seen[b] || !inLoop[b] || b == to || !ok {
+			return
+		}
+		seen[b] = true
+		for _, ins := range b.Instrs {
+			if cc := callOf(ins); cc != nil && cc.StaticCallee() != nil && advancing[cc.StaticCallee()] {
+				ok = false
+			}
+		}
+		for _, s := range b.Succs {
+			if s != h {
+				walk(s)
+			}
+		}
+	}
+	for _, s := range h.Succs {
+		walk(s)
+	}
+	return ok
 }
